@@ -1,6 +1,7 @@
 import Drivers.Proto
 import St4sd.Model.Env
 import St4sd.Model.C17Vars
+import St4sd.Model.C17Scalar
 /-! Model driver for property C17.
 
 ops
@@ -21,6 +22,9 @@ present the values may contain `%(name)s` references and the answer is computed 
 `subst` kind `"V"`: every `%(name)s` whose name is in the map replaced, the others kept (`tokV`).
 `D` = `[[key,value],...]`.  Environment names in `envs` are spelled as in the document
 (the model lower-cases them like `FlowIR.from_dict`).
+The values inside `envs` and `vars` are typed scalars (`Model/C17Scalar.lean`): a JSON string, an integer number,
+`true`/`false`, `null`, or `{"float": "<text of str(value)>"}`; the model converts them with `Scalar.text`
+(`env_value_to_string`).  `sys`, `launch`, `map`, `edits` are texts.
 -/
 open Lean Proto St4sd.Env St4sd.Assoc
 
@@ -30,15 +34,33 @@ def parseDict (j : Json) : Except String Dict := do
     if a.size != 2 then throw "dict entry must be [key,value]"
     return ((← a[0]!.getStr?).toList, (← a[1]!.getStr?).toList))
 
-def parseEnvs (j : Json) : Except String Envs := do
+def parseScalar (j : Json) : Except String Scalar :=
+  match j with
+  | .null => return .null
+  | .bool b => return .bool b
+  | .str s => return .str s.toList
+  | .num _ => return .int (← j.getInt?)
+  | .obj _ => do return .float (← (← j.getObjVal? "float").getStr?).toList
+  | _ => throw "scalar expected"
+
+def parseTDict (j : Json) : Except String TDict := do
+  (← j.getArr?).toList.mapM (fun e => do
+    let a ← e.getArr?
+    if a.size != 2 then throw "dict entry must be [key,value]"
+    return ((← a[0]!.getStr?).toList, (← parseScalar a[1]!)))
+
+def parseTEnvs (j : Json) : Except String TEnvs := do
   (← j.getArr?).toList.mapM (fun pe => do
     let a ← pe.getArr?
     if a.size != 2 then throw "platform entry must be [platform, envs]"
     let envs ← (← a[1]!.getArr?).toList.mapM (fun ne => do
       let b ← ne.getArr?
       if b.size != 2 then throw "env entry must be [name, dict]"
-      return ((← b[0]!.getStr?).toList, (← parseDict b[1]!)))
+      return ((← b[0]!.getStr?).toList, (← parseTDict b[1]!)))
     return ((← a[0]!.getStr?).toList, envs))
+
+/-- the text document of the typed `envs` of a request -/
+def parseEnvs (j : Json) : Except String Envs := do return textEnvs (← parseTEnvs j)
 
 /-- first occurrence of every key (association lists may shadow) -/
 def dedupe (d : Dict) : Dict :=
@@ -60,7 +82,7 @@ def parseVars (j : Json) : Except String Vars := do
   (← j.getArr?).toList.mapM (fun pe => do
     let a ← pe.getArr?
     if a.size != 2 then throw "vars entry must be [platform, dict]"
-    return ((← a[0]!.getStr?).toList, (← parseDict a[1]!)))
+    return ((← a[0]!.getStr?).toList, textDict (← parseTDict a[1]!)))
 
 def getVars? (j : Json) : Except String (Option Vars) :=
   match j.getObjVal? "vars" with
